@@ -61,6 +61,7 @@ fn main() {
             let max_viol: u64 = if args.iter().any(|a| a == "--keep-going") { u64::MAX } else { arg_val(&args, "--max-violations").and_then(|v| v.parse().ok()).unwrap_or(1) };
             let mut n_viol = 0u64;
             let mut finding_sample_done = false;
+            let mut finding_clauses_seen: std::collections::BTreeSet<String> = Default::default();
             let t0 = interpose::real_ns();
             let out = std::io::stdout();
             let mut i = 0u64;
@@ -68,10 +69,13 @@ fn main() {
                 let seed = from + i * stride;
                 let script = check.generate(seed, tier);
                 let mut o = run_script_isolated(check, script.clone(), false);
-                if o.ok && (i < samples || (!o.findings.is_empty() && !finding_sample_done)) {
-                    if !o.findings.is_empty() {
-                        finding_sample_done = true;
+                // keep the script of the first run that reports each finding clause (it becomes that finding's replay file)
+                let new_clause = o.findings.iter().any(|f| !finding_clauses_seen.contains(&f.clause));
+                if o.ok && (i < samples || new_clause) {
+                    for f in &o.findings {
+                        finding_clauses_seen.insert(f.clause.clone());
                     }
+                    finding_sample_done = true;
                     o.script = Some(script);
                 }
                 let line = serde_json::to_string(&o).unwrap();
